@@ -26,8 +26,8 @@ CLAUSES.append(inv({"classes/missing/one.yml": cls("missing.one"), "nodes/n.yml"
 CLAUSES.append(inv({"classes/a.yml": cls("a"), "nodes/n.yml": cls("n", ["a"])}, ignore_class_notfound=True, patterns=["("]))
 
 
-UNI_NAMES = ["dienste.größe", "übergang.alt", "äb", "naïve.café", "zone.東京", "d.x1", "plain.name", "Ünï.ÇØdé", "a.b", "日本"]
-UNI_PATS = ["^dienste\\.\\w+$", "(?i)^ÜBERGANG\\.", "^.{2}$", "^.{3}$", "^[^.]+\\.[^.]+$", "\\w+\\.café$", "^zone\\...$", "^zone\\.....$", "\\d$", "^\\w+$",
+UNI_NAMES = ["D.X1", "Plain.Name", "ZONE.ab", "TMP.scratch", "dienste.größe", "übergang.alt", "äb", "naïve.café", "zone.東京", "d.x1", "plain.name", "Ünï.ÇØdé", "a.b", "日本"]
+UNI_PATS = ["(?i)^legacy\\..*", "^tmp\\..*", "^d\\.x1$", "(?x)^plain \\. name$ # comment", "^zone\\.ab$", "(?i)nomatch", "^dienste\\.\\w+$", "(?i)^ÜBERGANG\\.", "^.{2}$", "^.{3}$", "^[^.]+\\.[^.]+$", "\\w+\\.café$", "^zone\\...$", "^zone\\.....$", "\\d$", "^\\w+$",
             "^d\\.gr..e$", "größe$", "(?i)ünï", "^\\S+$", "\\bcafé\\b", "^..$", "^....?$", "東", "^[a-z.]+$", "^[^a-z]+$"]
 
 
